@@ -18,22 +18,23 @@ from vplib.props.c17gen import Gen
 
 MANIFEST = dict(
     category="proof",
-    text="partial. Coq theorems about the three places where the formatter changes or re-encodes the program: "
-         "(1) normalize_blocks (model of simplify.rs) is idempotent for the compiler's and the formatter's option sets and, "
-         "for keep-predicates that never retain a block ending in a tail call, formatter-then-compiler normalisation equals compiler normalisation "
-         "(the unrestricted statement is refuted: finding F19); "
-         "(2) the string escapers of format.rs are inverted by the parser's unescaping, single-line and multi-line (margin, \\s protection, "
-         "CR/TAB/quote/brace escapes); (3) the Wadler printer of pretty.rs is total and emits exactly the Text atoms of the Doc in order for every width "
-         "(IfBreak resolved by the enclosing group's mode). NOT proved: the Doc construction of format.rs (1.8 kLoC), the nom parser and trivia attachment "
-         "are unmodelled, so the user-visible property (re-parses, fixpoint, same program/bytecode, same comments) is decided by an end-to-end "
-         "real-vs-real metamorphic search over grammar-generated sources, std/*.qv and the test-suite sources.",
+    text="partial. Coq theorems (13, closed under the global context) about the three places where the formatter changes or re-encodes the program: "
+         "(1) normalize_blocks (model of simplify.rs as repaired for F19) is idempotent for the compiler's option set, for the formatter's option set with ANY keep predicate, "
+         "and formatter-then-compiler normalisation equals compiler normalisation for ANY keep predicate (format_then_compile_same: 'identical after removing no-op blocks'); "
+         "(2) the string escapers of format.rs are inverted by the parser's unescaping, single-line and multi-line (every string and margin: \\s protection, CR/TAB/quote/brace/backslash escapes, "
+         "empty lines, closing delimiter found where expected, no hole opened), and the printer's trailing-space stripping (space and TAB only) leaves every rendered line intact; "
+         "(3) the Wadler printer of pretty.rs is total (explicit fuel suffices) and emits exactly the Text atoms of the Doc in order for every width, each IfBreak resolved by its enclosing group's mode "
+         "(docs with LineSuffix: up to the deferral of the suffix, as a permutation). Each model is tied to the code by differential execution against the real function on generated inputs. "
+         "NOT proved (partial): the Doc construction of format.rs (~2 kLoC of layout heuristics and trivia attachment), collapse_blanks and the nom parser are unmodelled, and normalize_preserves_eval is left to C02; "
+         "so the user-visible property (output re-parses, is a fixpoint, same program up to no-op blocks, same bytecode, same comment sequence) is decided by an end-to-end real-vs-real metamorphic search "
+         "over grammar-generated sources (all forms, comments/blank lines/CRLF at every boundary), std/*.qv, and every parsing source string of the test suite and of format.rs's own tests.",
     design_ref="§5 C17",
-    note="Trusted: Coq kernel, extraction (ExtrOcamlBasic), OCaml driver, Rust harness (incl. its own interpolation-aware comment scanner), "
-         "generators. Known findings F15-F19, F30-F44, F60-F63 (real formatter defects) are matched narrowly by input signature.",
+    note="Trusted: Coq kernel, extraction (ExtrOcamlBasic), OCaml driver, Rust harness (incl. its own interpolation-aware comment scanner), generators. "
+         "The search found 24 defect classes in the real formatter (F15-F19, F30-F44, F60-F63, F79c17; incl. a panic and two program-changing rewrites); 20 are repaired in /repo and their reproducers are must-pass corpus probes; "
+         "F31, F32 (comment order / merging), F41 and F79c17 remain known and are matched narrowly by input signature, only while known_findings.json lists them as known.",
     technique="Coq proof of the simplifier / string codec / layout models + model-code correspondence by differential execution + end-to-end metamorphic testing of the real formatter",
 )
 
-# finding id -> (input signature computed by the harness on the *input*, failing checks it may explain)
 CK = {"comments:reordered", "comments:merged", "comments:lost", "comments:changed"}
 IK = {"idem:layout", "idem:content"}
 KNOWN = {
@@ -59,6 +60,7 @@ KNOWN = {
     "F60": ("select-then-tuple", {"ast", "bc"} | IK),       # `x ! ~> [a]` is rendered `x ! [a]` = the general select form with sources
     "F61": ("bodyless-fn-then-block", {"ast", "bc"} | IK),  # `#'int ~> { .. }` / `.. #'int, { .. } ..` is rendered `#'int { .. }` / `#'int\n{ .. }` = a function WITH that body
     "F63": ("empty-select-sources", {"idem:layout"}),       # an over-long chain breaks inside the empty source list of `! []` and emits a blank line there, which the 2nd format re-attaches
+    "F79c17": (frozenset({"hole-name-then-paren", "hole-string"}), {"reparse"}),   # residue of the F43 repair: inside a string hole that contains a """ string the hole is flattened with raw newlines and `Name\n(` appears again
     "F62": ("multi-hole-trivia", {"reparse"} | CK | IK),    # chains inside a hole of a """ string carry offsets relative to the hole: comments/blank lines of the file are attached to them (printed inside the hole)
 }
 
@@ -115,8 +117,11 @@ def explained_by(ctx, info):
         f = ctx.findings.get(fid)
         if not f or f.get("status") != "known" or f.get("property") != ctx.pid.replace("scratch", ""):
             continue        # a fixed / unregistered finding suppresses nothing
-        sigs = (sig,) if isinstance(sig, str) else sig
-        if any(x in info["sig"] for x in sigs) and info["fails"] & kinds:
+        if isinstance(sig, frozenset):          # all of these signature tokens
+            hit = sig <= info["sig"]
+        else:                                   # one token, or any of a tuple
+            hit = any(x in info["sig"] for x in ((sig,) if isinstance(sig, str) else sig))
+        if hit and info["fails"] & kinds:
             ids.append(fid)
             covered |= kinds
     if ids and info["fails"] <= covered:
@@ -378,10 +383,8 @@ def run(ctx):
         "distinct_nontrivial": nontrivial,
         "rule": "e2e: one evaluation = one of the 5 metamorphic checks on one parseable source; distinct by SHA-1 of the source; non-trivial = the source has a comment, "
                 "a multi-line string, a block, a line within +-4 columns of the 40/50/100 thresholds, or a multi-line layout. Correspondence cases are counted separately below. "
-                "Generator narrowing (generated sources only; corpus, std/*.qv and test-suite sources are never narrowed): no comments are placed INSIDE TYPES "
-                "(tuple-type brackets, union bars of aliases / function types): such a comment has no anchor, the formatter re-attaches it to an unrelated node, and the AST carries no "
-                "spans for types, so those failures cannot be given a stable signature; comments inside patterns, brackets, blocks, guards, after `=>`, at every sequence separator and "
-                "blank lines everywhere ARE generated. A failing case is suppressed only if every failing check is covered by known findings (status == known in known_findings.json) "
+                "No generator narrowing is in force (comments, blank lines and CRLF are generated at every boundary the grammar admits, including inside patterns and types). "
+                "A failing case is suppressed only if every failing check is covered by known findings (status == known in known_findings.json) "
                 "whose signature matches; everything else is shrunk and reported.",
         "samples": samples + [{"source": sources[len(corpus) + len(std)][0][:200] if len(sources) > len(corpus) + len(std) else ""}],
         "sources_total": len(sources), "sources_parsed": parsed, "sources_distinct": len(seen),
@@ -575,7 +578,7 @@ def gen_doc(rng, depth):
     if depth <= 0:
         k = rng.random()
         if k < 0.5:
-            t = "".join(rng.choice(["a", "b", "xyz", " ", "é", "中", "{", ",", "|"]) for _ in range(rng.choice([0, 1, 2, 5, 9])))
+            t = "".join(rng.choice(["a", "b", "xyz", " ", " ", "é", "中", "{", ",", "|", "\t", "\r", "\u00a0", "\u2003", "\x0c"]) for _ in range(rng.choice([0, 1, 2, 5, 9])))
             return "(text %s)" % cps(t) if t else "(text)"
         return rng.choice(["line", "softline", "line", "softline", "hardline", "nil", "breakparent"])
     k = rng.random()
